@@ -4,7 +4,8 @@ import shapes, nslgen, gentyped, vmcases
 from common import TranslatorAbort
 
 STATIC = ["Base/Syntax.v", "Model/PyNum.v", "Model/IR.v", "Model/VM.v", "Model/Elab.v", "Model/Lower.v", "Spec/RefSem.v", "Proofs/OpsAgree.v",
-          "Proofs/LowerExprProofs.v", "Proofs/ElabExprProofs.v", "Proofs/ReturnExprProofs.v", "Proofs/CallAgreeProofs.v", "Proofs/ReturnExprExample.v", "Harness/FragLib.v"]
+          "Proofs/LowerExprProofs.v", "Proofs/ElabExprProofs.v", "Proofs/ReturnExprProofs.v", "Proofs/CallAgreeProofs.v", "Proofs/ReturnExprExample.v", "Harness/FragLib.v",
+          "Proofs/LowerStmtProofs.v", "Proofs/ElabStmtProofs.v", "Proofs/StraightLineProofs.v", "Proofs/StraightLineExample.v", "Harness/FragLib2.v"]
 
 
 def gen_programs(ctx, n):
@@ -55,6 +56,51 @@ def return_programs(ctx, n):
     return out
 
 
+def straight_programs(ctx, n):
+    """modules of straight-line functions: declarations of int / float locals (with and without initialiser), plain assignments to locals,
+    parameters and globals, a return -- the fragment of theorem C01_straight_line_functions_partial (some with += or a float && to fall outside)"""
+    from nslgen import Module, Global, Func, Arg, Block, Ret, B, V, Decl, ES, A
+    rng = ctx.rng
+    out = []
+    for k in range(n):
+        g = gentyped.TGen(rng, floats=(k % 4 != 0), arrays=False, structs=False, calls=False, side_effects=False, max_depth=2)
+        genv = gentyped.Env(); genv.vars = {"g0": "int", "g1": "float"}
+        items = [Global("int", "g0"), Global("float", "g1")]
+        sigs = []
+        for j in range(rng.choice([1, 2])):
+            params = [("int", "a"), ("float", "b"), ("int", "c")][: rng.choice([1, 2, 3])]
+            env = gentyped.Env(genv); env.bounds = {}
+            for t, nm in params:
+                env.vars[nm] = t
+            body = []
+            for q in range(rng.choice([1, 2, 3, 4, 5])):
+                t = rng.choice(["int", "float"]) if k % 4 != 0 else "int"
+                if rng.random() < 0.45:
+                    x = "v%d_%d" % (j, q)
+                    body.append(Decl(t, x, tg_expr(g, env, t) if rng.random() < 0.7 else None)); env.vars[x] = t
+                else:
+                    cands = [nm for nm, ty in env.all().items() if ty == t]
+                    if cands:
+                        body.append(ES(A(V(rng.choice(cands)), tg_expr(g, env, t), "+=" if k % 11 == 10 else "=")))
+            rt = rng.choice(["int", "float"]) if k % 4 != 0 else "int"
+            body.append(Ret(tg_expr(g, env, rt)))
+            items.append(Func("f%d" % j, [Arg(t, nm) for t, nm in params], rt, Block(body), export=True))
+            sigs.append(("f%d" % j, params))
+        calls = []
+        for c in range(3):
+            fname, params = rng.choice(sigs)
+            calls.append({"fn": fname, "args": {nm: (rng.randrange(-6, 9) if t == "int" else rng.choice([0.5, -1.25, 3.0, 0.1, 7.5, -0.3])) for t, nm in params},
+                          "globals": {"g0": rng.randrange(-4, 7), "g1": rng.choice([0.25, -2.0, 1.1])} if c == 0 else {}, "read_globals": ["g0", "g1"]})
+        m = Module(items)
+        text, _ = nslgen.render(m, ["canonical", "dense", "wild", "lines"][k % 4], rng)
+        out.append((m, calls, text))
+    return out
+
+
+def tg_expr(g, env, t):
+    return g.expr(env, t, 2, pure=True)
+
+
 def run(ctx):
     ctx.static_obligations(STATIC)
     repo = ctx.sync_repo(1)[0]
@@ -70,6 +116,8 @@ def run(ctx):
     nret = 60 if ctx.tier == "quick" else 1500
     ret_from = len(progs)
     progs = progs + return_programs(ctx, nret)
+    straight_from = len(progs)
+    progs = progs + straight_programs(ctx, 60 if ctx.tier == "quick" else 1500)
     jobs = [vmcases.job(text, calls, optimize=False) for (m, calls, text) in progs]
     res = ctx.run_impl("compile_impl.py", jobs, nworkers=16)
     blocks, meta, direct_bad = [], [], []
@@ -77,7 +125,9 @@ def run(ctx):
         if not r["accept"] or "ir" not in r or "calls" not in r:
             direct_bad.append((text, r)); continue
         d, e = vmcases.case_block(k, m, r, calls)
-        if k >= ret_from:
+        if k >= straight_from:
+            e = "(%s + 1000 * (100000000 + straight_case M_%d))" % (e, k)
+        elif k >= ret_from:
             e = "(%s + 1000 * frag_case M_%d)" % (e, k)        # how many functions of the module lie in the proved fragment
         blocks.append((d, e)); meta.append((text, calls, r))
     files = vmcases.write_case_files(ctx, "C01", blocks)
@@ -87,13 +137,19 @@ def run(ctx):
              "lowering_model_differs": 0, "outside_lowering_fragment": 0, "vm_model_skipped": 0, "spec_out_of_domain": 0}
     bad_spec, bad_model = [], []
     frag = {"functions": 0, "inside_proved_fragment": 0, "literal_test_passed": 0}
+    sfrag = {"functions": 0, "inside_proved_fragment": 0, "literal_test_passed": 0, "lowered_ir_also_in_forwarding_fragment": 0}
     for x, c in zip(meta, codes):
         if c is None:
             continue
         if c >= 1000:
             fc = c // 1000
             c = c % 1000
-            frag["functions"] += fc // 10000; frag["inside_proved_fragment"] += (fc // 100) % 100; frag["literal_test_passed"] += fc % 100
+            if fc >= 100000000:
+                fc -= 100000000
+                sfrag["functions"] += fc // 1000000; sfrag["inside_proved_fragment"] += (fc // 10000) % 100
+                sfrag["literal_test_passed"] += (fc // 100) % 100; sfrag["lowered_ir_also_in_forwarding_fragment"] += fc % 100
+            else:
+                frag["functions"] += fc // 10000; frag["inside_proved_fragment"] += (fc // 100) % 100; frag["literal_test_passed"] += fc % 100
         if c & 2:
             stats["spec_differs"] += 1; bad_spec.append(x)
         if c & 1:
@@ -111,10 +167,11 @@ def run(ctx):
                        "assignment, ++/--, if/else, for/while/do with break/continue, early return, overloaded and recursive helper calls) in four layouts, three "
                        "invocations each with random arguments and globals; the real IR is dumped and (i) compared for equality with the lowering model's IR, "
                        "(ii) executed by the VM model, (iii) the source is executed by the reference semantics; all three compared with the real VM's results inside Coq. "
-                       "Every program is distinct (by text) and counted non-trivial (contains control flow or calls). Plus modules of functions `return <pure scalar expression>;` "
+                       "Every program is distinct (by text) and counted non-trivial (contains control flow or calls). Plus modules of straight-line functions (declarations, assignments, return) and of functions `return <pure scalar expression>;` "
                        "(the fragment of the end-to-end theorem): for each, the boolean fragment test is evaluated inside Coq on the source AST and the same three-way comparison is made.")
     ctx.cov["samples"] = [{"source": t[:600], "calls": c, "impl": r["calls"]} for t, c, r in meta[:2]]
     stats["return_expression_functions"] = frag
+    stats["straight_line_functions"] = sfrag
     ctx.extra["input_distribution"] = stats
     ctx.extra["disagreements_checked"] = len(codes)
     if bad_spec or direct_bad:
